@@ -1,10 +1,107 @@
 import CoxeterVerif.Driver.Proto
+import CoxeterVerif.Model.Steiner
+import CoxeterVerif.Spec.Steiner
 
 namespace OpsC11
+open Steiner
+
+def rdFaceIx (c : Ctx) : Rd FaceIx := do
+  let i ← Rd.nat c; let j ← Rd.nat c; let e0 ← Rd.nat c; let e1 ← Rd.nat c
+  pure ⟨i, j, e0, e1⟩
+
+def rdPair {α} [Codec α] (c : Ctx) : Rd (α × α) := do
+  let a ← Rd.sc c; let b ← Rd.sc c; pure (a, b)
+
+/-- core: vertices normals fi volume area -/
+def rdCore {α} [Codec α] (c : Ctx) : Rd (Core α) := do
+  let vs ← Rd.list c (Rd.v3 c)
+  let ns ← Rd.list c (Rd.v3 c)
+  let fi ← Rd.list c (rdFaceIx c)
+  let v ← Rd.sc c
+  let s ← Rd.sc c
+  pure ⟨vs, ns, fi, v, s⟩
+
+def reply (r : Except String String) : String :=
+  match r with
+  | .ok s => s
+  | .error k => s!"E:{k}"
 
 /-- driver ops of C11. `none` = unknown op. -/
 def run (α : Type) [Scalar α] [Codec α] (op : String) (c : Ctx) : Option (Rd String) :=
   match op with
+  | "c11.cp" => some do
+      -- in: core ; out: mean_curvature tau asphericity iq   (or E:kind)
+      let core : Core α ← rdCore c
+      pure <| reply do
+        let mc ← CP.meanCurvature core
+        let t ← CP.tau core
+        let a ← CP.asphericity core
+        pure s!"{Out.sc mc} {Out.sc t} {Out.sc a} {Out.sc (CP.iq core)}"
+  | "c11.neighbors" => some do
+      -- in: numFaces fi ; out: for each face: count then the neighbour indices (in append order)
+      let n ← Rd.nat c
+      let fi ← Rd.list c (rdFaceIx c)
+      let nb := CP.findNeighbors n fi
+      let flat : List Int := nb.flatMap fun l => (l.length : Int) :: l.map (fun (k : Nat) => (k : Int))
+      pure (Out.ints flat)
+  | "c11.dihedral" => some do
+      -- in: normals fi a b ; out: phi   (or E:ValueError / E:IndexError)
+      let ns : List (V3 α) ← Rd.list c (Rd.v3 c)
+      let fi ← Rd.list c (rdFaceIx c)
+      let a ← Rd.nat c
+      let b ← Rd.nat c
+      pure <| reply do
+        let phi ← CP.getDihedral ns (CP.findNeighbors ns.length fi) a b
+        pure (Out.sc phi)
+  | "c11.edges" => some do
+      -- in: core ; out: L phi per face intersection
+      let core : Core α ← rdCore c
+      pure <| reply do
+        let es ← CP.edgeTerms core
+        pure (Out.scs (es.flatMap fun e => [e.1, e.2]))
+  | "c11.sphero3" => some do
+      -- in: core r ; out: radius volume surface_area mean_curvature iq   (or E:kind)
+      let core : Core α ← rdCore c
+      let r : α ← Rd.sc c
+      pure <| reply do
+        let r ← setRadius r
+        let v ← SpheroPolyhedron.volume core r
+        let s ← SpheroPolyhedron.surfaceArea core r
+        let m ← SpheroPolyhedron.meanCurvature core r
+        let q ← SpheroPolyhedron.iq core r
+        pure s!"{Out.sc r} {Out.sc v} {Out.sc s} {Out.sc m} {Out.sc q}"
+  | "c11.sphero2" => some do
+      -- in: vertices polyArea r ; out: radius signed_area area perimeter iq   (or E:kind)
+      let vs : List (V3 α) ← Rd.list c (Rd.v3 c)
+      let a : α ← Rd.sc c
+      let r : α ← Rd.sc c
+      pure <| reply do
+        let r ← setRadius r
+        let ar := SpheroPolygon.area vs a r
+        let p := SpheroPolygon.perimeter vs r
+        pure s!"{Out.sc r} {Out.sc (SpheroPolygon.signedArea vs a r)} {Out.sc ar} {Out.sc p} {Out.sc (Shape2D.iq ar p)}"
+  | "c11.spec3" => some do
+      -- in: V S r edges[(L,phi)] ; out: M H steinerVolume steinerArea M(r) statedVolume statedArea tau asph iq3
+      let v : α ← Rd.sc c
+      let s : α ← Rd.sc c
+      let r : α ← Rd.sc c
+      let es : List (α × α) ← Rd.list c (rdPair c)
+      let H := SteinerSpec.integratedMeanCurvature es
+      let M := SteinerSpec.meanCurvature es
+      pure s!"{Out.sc M} {Out.sc H} {Out.sc (SteinerSpec.steinerVolume v s H r)} {Out.sc (SteinerSpec.steinerArea s H r)} {Out.sc (SteinerSpec.normalise (SteinerSpec.steinerIntegratedMeanCurvature H r))} {Out.sc (SteinerSpec.statedVolume v s M r)} {Out.sc (SteinerSpec.statedArea s M r)} {Out.sc (SteinerSpec.tau M s)} {Out.sc (SteinerSpec.asphericity M s v)} {Out.sc (SteinerSpec.iq3 v s)}"
+  | "c11.spec2" => some do
+      -- in: A P r ; out: steinerArea2 steinerPerimeter2 iq2(of the rounded shape) iq2(core)
+      let a : α ← Rd.sc c
+      let p : α ← Rd.sc c
+      let r : α ← Rd.sc c
+      let ar := SteinerSpec.steinerArea2 a p r
+      let pr := SteinerSpec.steinerPerimeter2 p r
+      pure s!"{Out.sc ar} {Out.sc pr} {Out.sc (SteinerSpec.iq2 ar pr)} {Out.sc (SteinerSpec.iq2 a p)}"
+  | "c11.specdihedral" => some do
+      -- in: n1 n2 (any non-zero outward normals) ; out: pi - angle(n1, n2)
+      let n1 : V3 α ← Rd.v3 c
+      let n2 : V3 α ← Rd.v3 c
+      pure (Out.sc (SteinerSpec.dihedral n1 n2))
   | _ => none
 
 end OpsC11
